@@ -106,10 +106,12 @@ theorem remTok_of_ok {P : Params} {s : Sample} (h : SampleOKom P s) :
       | some t0 => simp [hts] at ht; subst ht; exact numTok_tsStr ((h.exemplar e he).ts t0 hts)
 
 /-- **`_parse_remaining_text` inverts the rendering of value, timestamp and exemplar** -/
-theorem rem_roundtrip (P : Params) (hI : IntLaw P.pyInt) (s : Sample) (h : SampleOKom P s) :
+theorem rem_roundtrip_exact (P : Params) (hI : IntLaw P.pyInt) (s : Sample) (h : SampleOKom P s) :
     ∃ vb ots oex, parseRemainingText P (lineRem s) = .ok (.flt vb, ots, oex) ∧
       P.pyFloat (Utils.floatToGoString s.value) = some vb ∧
-      tsMatches P (s.ts.map (·.ts)) ots ∧ exemplarMatches P s.exemplar oex := by
+      tsMatches P (s.ts.map (·.ts)) ots ∧ exemplarMatches P s.exemplar oex ∧
+      parseTimestamp P ((s.ts.map (fun t => OMExpo.tsStr t.ts)).getD []) = .ok ots ∧
+      (∀ e, s.exemplar = some e → ∃ oe, oex = some oe ∧ parseTimestamp P ((e.ts.map OMExpo.tsStr).getD []) = .ok oe.ts) := by
   obtain ⟨vb, hv⟩ := h.value
   have htok := remTok_of_ok h
   have hpv := parseValue_valTok hv
@@ -124,7 +126,7 @@ theorem rem_roundtrip (P : Params) (hI : IntLaw P.pyInt) (s : Sample) (h : Sampl
   unfold lineRem
   cases he : s.exemplar with
   | none =>
-    refine ⟨vb, ots, none, ?_, hv.flt, hts2, trivial⟩
+    refine ⟨vb, ots, none, ?_, hv.flt, hts2, trivial, hts1, fun e he' => by cases he'⟩
     simp only [Option.map_none]
     cases hs : s.ts with
     | none =>
@@ -149,11 +151,19 @@ theorem rem_roundtrip (P : Params) (hI : IntLaw P.pyInt) (s : Sample) (h : Sampl
     have hnts : ∀ t, s.ts.map (fun t => OMExpo.tsStr t.ts) = some t → NumTok t := htok.ts
     have hnets : ∀ t, e.ts.map OMExpo.tsStr = some t → NumTok t := fun t ht =>
       htok.ets (sortByKey e.labels, Utils.floatToGoString e.value, e.ts.map OMExpo.tsStr) (by rw [he]; rfl) t ht
-    refine ⟨vb, ots, some ⟨sortByKey e.labels, .flt eb, oets⟩, ?_, hv.flt, hts2, ⟨rfl, ⟨eb, hev.flt, rfl⟩, hets2⟩⟩
+    refine ⟨vb, ots, some ⟨sortByKey e.labels, .flt eb, oets⟩, ?_, hv.flt, hts2, ⟨rfl, ⟨eb, hev.flt, rfl⟩, hets2⟩, hts1,
+      fun e' he' => by cases he'; exact ⟨_, rfl, hets1⟩⟩
     rw [Option.map_some, parseRemaining_ex P _ htok.v _ hnts _ _ hpass _ (numTok_valTok hev) _ hnets hlab, hpv]
     simp only []
     rw [remFinish_ex P _ _ _ _ (fun t ht => (hnets t ht).1) _ (by rw [labelsLen_sort]; exact hex.len), hts1,
       parseValue_valTok hev, hets1]
+
+theorem rem_roundtrip (P : Params) (hI : IntLaw P.pyInt) (s : Sample) (h : SampleOKom P s) :
+    ∃ vb ots oex, parseRemainingText P (lineRem s) = .ok (.flt vb, ots, oex) ∧
+      P.pyFloat (Utils.floatToGoString s.value) = some vb ∧
+      tsMatches P (s.ts.map (·.ts)) ots ∧ exemplarMatches P s.exemplar oex := by
+  obtain ⟨vb, ots, oex, h1, h2, h3, h4, _⟩ := rem_roundtrip_exact P hI s h
+  exact ⟨vb, ots, oex, h1, h2, h3, h4⟩
 
 theorem sampleOf_ok {P : Params} {n : Str} {L : List (Str × Str)} {rem : Str} {v : Num} {ts : Option OTs}
     {ex : Option OExemplar} (h : parseRemainingText P rem = .ok (v, ts, ex)) :
@@ -182,6 +192,24 @@ theorem line_roundtrip (P : Params) (hI : IntLaw P.pyInt) (s : Sample) (h : Samp
   obtain ⟨vb, ots, oex, hrem, hvf, hts, hex⟩ := rem_roundtrip P hI s h
   obtain ⟨hok, hnd⟩ := labelsOK_sorted h.labels
   refine ⟨⟨s.name, some (sortByKey s.labels), some (.flt vb), ots, oex, none⟩, ?_, ⟨rfl, rfl, ⟨vb, hvf, rfl⟩, hts, hex, rfl⟩⟩
+  rcases lineBody_cases s with ⟨hv, hL, hb⟩ | ⟨hv, kv, r, hL, hb⟩ | ⟨hv, hb⟩
+  · rw [hb, hL]
+    have := parseSample_bare P hv (remTok_of_ok h)
+    unfold lineRem at hrem ⊢
+    rw [this]; exact sampleOf_ok hrem
+  · rw [hb, hL]
+    rw [hL] at hok hnd
+    rw [parseSample_labels P hv kv r hok hnd]; exact sampleOf_ok hrem
+  · rw [hb, parseSample_quoted P s.name _ hok hnd]; exact sampleOf_ok hrem
+
+/-- the same with the parsed timestamps pinned down: they are what `_parse_timestamp` makes of the written tokens -/
+theorem line_roundtrip_exact (P : Params) (hI : IntLaw P.pyInt) (s : Sample) (h : SampleOKom P s) :
+    ∃ o, parseSample P (lineBody s) = .ok o ∧ SampleMatches P s o ∧
+      parseTimestamp P ((s.ts.map (fun t => OMExpo.tsStr t.ts)).getD []) = .ok o.ts ∧
+      (∀ e, s.exemplar = some e → ∃ oe, o.exemplar = some oe ∧ parseTimestamp P ((e.ts.map OMExpo.tsStr).getD []) = .ok oe.ts) := by
+  obtain ⟨vb, ots, oex, hrem, hvf, hts, hex, hx1, hx2⟩ := rem_roundtrip_exact P hI s h
+  obtain ⟨hok, hnd⟩ := labelsOK_sorted h.labels
+  refine ⟨⟨s.name, some (sortByKey s.labels), some (.flt vb), ots, oex, none⟩, ?_, ⟨rfl, rfl, ⟨vb, hvf, rfl⟩, hts, hex, rfl⟩, hx1, hx2⟩
   rcases lineBody_cases s with ⟨hv, hL, hb⟩ | ⟨hv, kv, r, hL, hb⟩ | ⟨hv, hb⟩
   · rw [hb, hL]
     have := parseSample_bare P hv (remTok_of_ok h)
